@@ -277,6 +277,25 @@ func (x *Exec) havocLoop(st *State, fr *Frame, to *ssa.BasicBlock, li *loopInfo)
 			fr.names[phi.Comment] = v
 		}
 	}
+	// effect ghosts (call counters, last arguments) of everything the loop body may call
+	for name := range x.loopCallNames(fr, to.Index, li) {
+		k := "ncalls:" + name
+		old := st.ghost[k]
+		if old == nil {
+			old = IntLit(0)
+		}
+		f := x.freshConst(st, "ncalls", SInt)
+		x.assume(st, app(SBool, ">=", f, old), "call counter only grows")
+		st.ghost[k] = f
+		for i := 0; i < 6; i++ {
+			lk := fmt.Sprintf("lastarg:%s:%d", name, i)
+			if cur, ok := st.ghost[lk]; ok {
+				st.ghost[lk] = x.freshConst(st, "lastarg", cur.sort)
+			} else {
+				st.ghost[lk] = x.freshConst(st, "lastarg", SInt)
+			}
+		}
+	}
 	x.loopPrecise = map[string][]preciseWrite{}
 	all, keys := x.loopWrites(st, fr, to.Index, li)
 	if all {
@@ -296,6 +315,53 @@ func (x *Exec) havocLoop(st *State, fr *Frame, to *ssa.BasicBlock, li *loopInfo)
 			st.heap[k] = Store(arr, w.base, x.freshConst(st, "hvl", vs))
 		}
 	}
+}
+
+// loopCallNames collects the ghost names under which calls made inside the natural loop of
+// header h (directly or through inlined callees) are counted.
+func (x *Exec) loopCallNames(fr *Frame, h int, li *loopInfo) map[string]bool {
+	out := map[string]bool{}
+	var scan func(fn *ssa.Function, blocks map[int]bool, depth int)
+	scan = func(fn *ssa.Function, blocks map[int]bool, depth int) {
+		for _, b := range fn.Blocks {
+			if blocks != nil && !blocks[b.Index] {
+				continue
+			}
+			for _, in := range b.Instrs {
+				ci, ok := in.(ssa.CallInstruction)
+				if !ok {
+					continue
+				}
+				c := ci.Common()
+				if c.IsInvoke() {
+					out["("+c.Value.Type().String()+")."+c.Method.Name()] = true
+					if c.Method.Name() == "WriteAt" {
+						out["file.WriteAt"] = true
+					}
+					continue
+				}
+				switch f := c.Value.(type) {
+				case *ssa.Function:
+					out[externName(f)] = true
+					out[fnRelName(f)] = true
+					if cc := x.contractFor(f); cc != nil {
+						out[cc.Func] = true
+					} else if f.Blocks != nil && inModule(f) && depth < 3 {
+						scan(f, nil, depth+1)
+					}
+				case *ssa.MakeClosure:
+					if cf, ok := f.Fn.(*ssa.Function); ok && depth < 3 {
+						scan(cf, nil, depth+1)
+					}
+				case *ssa.Builtin:
+				default:
+					out["funcvalue"] = true
+				}
+			}
+		}
+	}
+	scan(fr.fn, li.body[h], 0)
+	return out
 }
 
 type preciseWrite struct {
